@@ -117,6 +117,7 @@ func Jobs(thorough bool) []core.JobsScenario {
 var localRequests = []core.JobResources{
 	{Threads: 0, MemGB: 0}, {Threads: 1, MemGB: 1}, {Threads: 2, MemGB: 2}, {Threads: 3, MemGB: 1}, {Threads: 1, MemGB: 3},
 	{Threads: -1, MemGB: 1}, {Threads: 1, MemGB: -1}, {Threads: 0.5, MemGB: 0.5}, {Threads: 1.5, MemGB: 1},
+	{Threads: 0.5, MemGB: 1.5}, {Threads: 0.3, MemGB: 0.75},
 }
 
 func Local(thorough bool) []core.LocalScenario {
@@ -129,7 +130,9 @@ func Local(thorough bool) []core.LocalScenario {
 				sc := base
 				sc.Jobs = []core.JobResources{localRequests[a], localRequests[b]}
 				out = append(out, sc)
-				for c := b; c < n; c++ {
+				// triples over the first nine shapes only (the fractional
+				// memory shapes are covered in pairs)
+				for c := b; c < n && c < 9 && a < 9 && b < 9; c++ {
 					sc3 := base
 					sc3.Jobs = []core.JobResources{localRequests[a], localRequests[b], localRequests[c]}
 					out = append(out, sc3)
